@@ -407,3 +407,35 @@ def rule_cursor_reads(ctx, rid):
                             detail="neither a comparison with last_, nor a condition implying the requested bits cover that byte, nor a "
                             "count-bounded loop dominates this read", sig="read-past-cursor")
     return n
+
+
+def rule_popcount(ctx, rid):
+    """SBC / ZBC (SWAR population count and its complement) equal the number of set / clear bits of the argument for every input
+    (lane domain: exact affine forms over the input bits per field; a mask that cuts the reachable high bits of a field is a definite loss)"""
+    from sa import lanedom as L
+    n = 0
+    for q, kind in (("cds::bitop::platform::sbc32", "set"), ("cds::bitop::platform::sbc64", "set"),
+                    ("cds::bitop::platform::zbc32", "clear"), ("cds::bitop::platform::zbc64", "clear"),
+                    ("cds::bitop::details::BitOps::SBC", "set"), ("cds::bitop::details::BitOps::ZBC", "clear")):
+        for F in ctx.need(q):
+            if len(F.params) != 1:
+                continue
+            w = param_width(F)
+            if w is None:
+                continue
+            n += 1
+            what = "%s(%s) is the number of %s bits of its argument for all inputs" % (q.split("::", 2)[-1], F.params[0]["t"], kind)
+            sig = "popcount-%s-%d" % (kind, w)
+            try:
+                r = L.LaneInterp(ctx.db).run(F, [L.inp(w)])
+            except L.LaneOverflow as e:
+                ctx.bad(rid, F, what, None, detail="SWAR field overflow: %s" % e, sig=sig)
+                continue
+            except Undecided as e:
+                ctx.broken("%s(%s): undecided in the lane domain: %s" % (q, F.params[0]["t"], e))
+                continue
+            want = L.Form(0, dict((i, 1) for i in range(w))) if kind == "set" else L.Form(w, dict((i, -1) for i in range(w)))
+            got = r.lanes if isinstance(r, L.LV) else None
+            ok = got is not None and len(got) == 1 and got[0][0] == 0 and got[0][1].key() == want.key()
+            ctx.check(ok, rid, F, what, None, detail="computed %r, specification is %r at bit 0" % (r, want), sig=sig)
+    return n
